@@ -57,6 +57,7 @@ type Ctx struct {
 	Cov     map[string]any
 	samples []any
 	Deadline time.Time // internal deadline: never fails a check, ends with exhaustive:false
+	CaseTimeout time.Duration // watchdog per case (0 = none): a case running longer is a violation 'hang' (C14, C17)
 	capped  bool
 }
 
@@ -209,6 +210,24 @@ func (c *Ctx) Finish(recheck func(caseJSON []byte) *Fail) int {
 		fails := 0
 		if recheck != nil {
 			for i := 0; i < 5; i++ {
+				if strings.HasSuffix(v.Key, ":hang") {
+					// re-executing a hanging case leaks a spinning goroutine each time: once is enough
+					if i > 0 {
+						fails++
+						continue
+					}
+					done := make(chan *Fail, 1)
+					go func() { done <- recheck(caseRaw) }()
+					select {
+					case f := <-done:
+						if f != nil {
+							fails++
+						}
+					case <-time.After(c.CaseTimeout + 5*time.Second):
+						fails++
+					}
+					continue
+				}
 				if f := recheck(caseRaw); f != nil {
 					fails++
 				}
@@ -375,14 +394,36 @@ func ParallelEnum[C any](c *Ctx, gen func(emit func(C) bool), eval func(C) (fail
 	var wg sync.WaitGroup
 	var st Stats
 	var stMu sync.Mutex
+	type slot struct {
+		mu    sync.Mutex
+		start time.Time
+		cs    *C
+		ord   int64
+	}
+	slots := make([]*slot, workers)
+	hung := make(chan struct{})
+	var hungOnce sync.Once
 	for w := 0; w < workers; w++ {
 		wg.Add(1)
+		sl := &slot{}
+		slots[w] = sl
 		go func() {
 			defer wg.Done()
 			var ev, nt int64
+			defer func() {
+				stMu.Lock()
+				st.Evaluations += ev
+				st.NonTrivial += nt
+				stMu.Unlock()
+			}()
 			for it := range ch {
 				for i, cs := range it.cs {
 					cs := cs
+					if c.CaseTimeout > 0 {
+						sl.mu.Lock()
+						sl.start, sl.cs, sl.ord = time.Now(), &cs, it.ord+int64(i)
+						sl.mu.Unlock()
+					}
 					var nontriv bool
 					f := Safe(c.Prop, func() *Fail {
 						f, n := eval(cs)
@@ -396,22 +437,59 @@ func ParallelEnum[C any](c *Ctx, gen func(emit func(C) bool), eval func(C) (fail
 					if f != nil {
 						c.Violation(f, cs, it.ord+int64(i))
 					}
+					if c.CaseTimeout > 0 {
+						sl.mu.Lock()
+						sl.cs = nil
+						sl.mu.Unlock()
+					}
 				}
 			}
-			stMu.Lock()
-			st.Evaluations += ev
-			st.NonTrivial += nt
-			stMu.Unlock()
+		}()
+	}
+	stopMon := make(chan struct{})
+	if c.CaseTimeout > 0 {
+		go func() {
+			t := time.NewTicker(500 * time.Millisecond)
+			defer t.Stop()
+			for {
+				select {
+				case <-stopMon:
+					return
+				case <-t.C:
+					for _, sl := range slots {
+						sl.mu.Lock()
+						if sl.cs != nil && time.Since(sl.start) > c.CaseTimeout {
+							c.Violation(&Fail{Key: c.Prop + ":hang", What: fmt.Sprintf("case still running after %s (does not terminate)", c.CaseTimeout)}, *sl.cs, sl.ord)
+							sl.mu.Unlock()
+							hungOnce.Do(func() { close(hung) })
+							return
+						}
+						sl.mu.Unlock()
+					}
+				}
+			}
 		}()
 	}
 	const batch = 256
 	var cur []C
 	var ord int64
 	n := 0
+	isHung := func() bool {
+		select {
+		case <-hung:
+			return true
+		default:
+			return false
+		}
+	}
 	gen(func(cs C) bool {
 		cur = append(cur, cs)
 		if len(cur) == batch {
-			ch <- item{ord, cur}
+			select {
+			case ch <- item{ord, cur}:
+			case <-hung:
+				return false
+			}
 			ord += int64(len(cur))
 			cur = nil
 			n++
@@ -421,11 +499,25 @@ func ParallelEnum[C any](c *Ctx, gen func(emit func(C) bool), eval func(C) (fail
 		}
 		return true
 	})
-	if len(cur) > 0 {
-		ch <- item{ord, cur}
+	if len(cur) > 0 && !isHung() {
+		select {
+		case ch <- item{ord, cur}:
+		case <-hung:
+		}
 	}
 	close(ch)
-	wg.Wait()
+	allDone := make(chan struct{})
+	go func() { wg.Wait(); close(allDone) }()
+	select {
+	case <-allDone:
+	case <-hung:
+		// a worker is stuck inside the code under test and cannot be stopped: report what we have
+		c.SetCapped()
+		time.Sleep(200 * time.Millisecond)
+	}
+	close(stopMon)
+	stMu.Lock()
+	defer stMu.Unlock()
 	return st
 }
 
